@@ -64,7 +64,8 @@ def MainOk (c : Cert) (nm n : Nat) (th : Thread) : Prop :=
   (∀ i ∈ th.body.take (th.body.length - th.epi.length),
     i = .read (c.src (n - 1)).1 (c.src (n - 1)).2 ∨ i.isFail = true) ∧
   (match th.epi.getLast? with
-   | some (.finish sv) => th.epi = (List.range nm).map Instr.killIfExc ++ (List.range (n - 1)).map Instr.join ++ [.finish sv]
+   | some (.finish sv) => th.epi = (Instr.killIfExc (c.src (n - 1)).1 :: (List.range nm).map Instr.killIfExc) ++
+       (List.range (n - 1)).map Instr.join ++ [.finish sv]
    | _ => False)
 
 def ThreadOk (net : Net) (c : Cert) (t : Nat) : Prop :=
@@ -195,7 +196,8 @@ theorem SenderOk.mem {c : Cert} {nm t m : Nat} {th : Thread} (h : SenderOk c nm 
   · simp at hi; exact Or.inl hi
 
 theorem MainOk.epi_eq {c : Cert} {nm n : Nat} {th : Thread} (h : MainOk c nm n th) :
-    ∃ sv, th.epi = (List.range nm).map Instr.killIfExc ++ (List.range (n - 1)).map Instr.join ++ [.finish sv] := by
+    ∃ sv, th.epi = (Instr.killIfExc (c.src (n - 1)).1 :: (List.range nm).map Instr.killIfExc) ++
+      (List.range (n - 1)).map Instr.join ++ [.finish sv] := by
   have := h.2.2.2.2.2.2
   split at this
   · rename_i sv _; exact ⟨sv, this⟩
@@ -205,8 +207,10 @@ theorem MainOk.epi_mem {c : Cert} {nm n : Nat} {th : Thread} (h : MainOk c nm n 
     (∃ m, m < nm ∧ i = .killIfExc m) ∨ (∃ u, u < n - 1 ∧ i = .join u) ∨ ∃ sv, i = .finish sv := by
   obtain ⟨sv, he⟩ := h.epi_eq
   rw [he] at hi
-  simp only [List.mem_append, List.mem_map, List.mem_range, List.mem_singleton] at hi
-  rcases hi with (⟨m, hm, rfl⟩ | ⟨u, hu, rfl⟩) | rfl
+  simp only [List.mem_append, List.mem_cons, List.mem_map, List.mem_range, List.not_mem_nil,
+    or_false] at hi
+  rcases hi with ((rfl | ⟨m, hm, rfl⟩) | ⟨u, hu, rfl⟩) | rfl
+  · exact Or.inl ⟨_, h.1, rfl⟩
   · exact Or.inl ⟨m, hm, rfl⟩
   · exact Or.inr (Or.inl ⟨u, hu, rfl⟩)
   · exact Or.inr (Or.inr ⟨sv, rfl⟩)
